@@ -1,6 +1,6 @@
 (* ImplGen.v: the first-stage theorems (P19) over the steps under ANY queue discipline. *)
 From LLB Require Import Engine.Rules Engine.Spec Engine.Impl Engine.ImplProofs Engine.ImplProofsSticky Engine.ImplProofsMono Engine.ImplProofsLoop
-  Engine.ImplProofsInv Engine.ImplProofsInv2 Engine.ImplProofsInv3 Engine.ImplProofsInv7 Engine.ImplProofsInv9 Engine.ImplProofsStall Engine.ImplProofsRun
+  Engine.ImplProofsInv Engine.ImplProofsInv2 Engine.ImplProofsInv3 Engine.ImplProofsInv4 Engine.ImplProofsInv5 Engine.ImplProofsInv6 Engine.ImplProofsInv7 Engine.ImplProofsInv8 Engine.ImplProofsInv9 Engine.ImplProofsStall Engine.ImplProofsRun
   Engine.ImplProofsAvail Engine.ImplProofsProto Engine.Protocol Engine.ImplGen Engine.ImplGenProofs Engine.ImplGenInv.
 From LLB Require Engine.FindCycle Engine.FindCycleProofs.
 From Coq Require Import List NArith Arith Lia Permutation.
@@ -64,5 +64,84 @@ Proof.
   destruct HIp as (_ & HT & HII & _).
   destruct (t_rd1 ctx0 sp HT k) as (ti & Hg & Hk & Hw); [rewrite Hq; now left|].
   exists ti. rewrite <- Htk, <- Hkd, <- Hoc. repeat split; auto. rewrite <- Hw. symmetry. rewrite (i_wc rules ctx0 sp HII k ti Hg). reflexivity.
+Qed.
+
+(* ---------- the protocol automaton of C06 ---------- *)
+Lemma R2_qperm s sp : qperm s sp -> R2 s sp.
+Proof.
+  intros H Hn. assert (Hn0 : nf s) by (destruct H; unfold nf in *; now autorewrite with iv in Hn). split; auto.
+  exists []. split; [destruct H; now autorewrite with iv|]. intros k q Hq. exists q. split; auto. destruct H; exact Hq.
+Qed.
+Lemma R2_mstep_gen s s' : Inv rules ctx0 s -> mstep_gen s s' -> R2 s s'.
+Proof.
+  intros HI H. destruct (mstep_gen_head rules env F ord syncp s s' H) as (sp & [->|Hq] & Hs); [now apply (R2_mstep rules env F ord syncp)|].
+  eapply R2_trans; [apply (R2_qperm s sp Hq)|]. apply (R2_mstep rules env F ord syncp); auto. now apply (Inv_qperm rules ctx0 s sp Hq).
+Qed.
+Lemma R2_msteps_gen s s' : Inv rules ctx0 s -> msteps_gen s s' -> R2 s s'.
+Proof.
+  intros HI H. induction H as [|s s' s'' H IH Hs]; [apply R2_refl|].
+  eapply R2_trans; [exact (IH HI)|]. apply R2_mstep_gen; auto. eapply Inv_msteps_gen; eauto.
+Qed.
+Theorem protocol_prefix_gen s0 root s : in_build_gen s0 root s ->
+  exists l, is_log s = l ++ is_log (start_build (iemit (bump s0) (EBuildStart root)) root) /\
+            forall k, proto_prefix_ok (provided (projl k l)) (projl k l) = true.
+Proof.
+  intros [Q M]. pose proof (Inv_start rules s0 root Q) as HI0.
+  assert (Hn : nf s) by (apply (Inv_msteps_gen rules env F ord syncp _ _ M HI0)).
+  destruct (R2_msteps_gen _ _ HI0 M Hn) as (_ & l & Hl & Hq). exists l. split; auto.
+  intros k. destruct (Hq k HInit) as (q' & Hr & _).
+  - cbn [qok]. destruct Q as (_ & _ & _ & _ & _ & _ & _ & _ & Q9). destruct (Q9 k) as (H1 & H2 & H3 & _).
+    set (st := start_build (iemit (bump s0) (EBuildStart root)) root).
+    assert (Hk : kind_of st k = kind_of s0 k) by (unfold st, start_build, kind_of; now autorewrite with iv).
+    pose proof (rrank_le5 (is_epoch st) (rinfo_of st k)) as Hle. unfold krank. unfold rrank in *. fold (kind_of st k) in *. rewrite Hk in *.
+    destruct (kind_of s0 k); try contradiction; try lia. destruct (N.eqb _ _); lia.
+  - eapply runA_proto; eauto.
+Qed.
+
+(* ---------- the loop of Impl.v from a state reached under any discipline: stall, termination ---------- *)
+Lemma Inv_finish_all s comps : Inv rules ctx0 s -> Inv rules ctx0 (fold_left (task_finish rules) comps s).
+Proof. revert s. induction comps as [|t l IH]; intros s HI; cbn [fold_left]; auto. apply IH. now apply Inv_task_finish. Qed.
+Lemma in_build_gen_finish_all s0 root s comps : in_build_gen s0 root s -> in_build_gen s0 root (fold_left (task_finish rules) comps s).
+Proof.
+  intros [Q M]. split; auto. revert s M. induction comps as [|t l IH]; intros s M; cbn [fold_left]; auto.
+  apply IH. eapply msg_step; [exact M|apply ms_finish_gen].
+Qed.
+(* one iteration of the loop of Impl.v is a run of general steps *)
+Theorem loop_iteration_msteps_gen stalled fuel s comps :
+  nf (fst (loop_iteration_gen rules env F ord syncp stalled fuel s comps)) ->
+  msteps_gen s (fst (loop_iteration_gen rules env F ord syncp stalled fuel s comps)).
+Proof. intros Hn. apply msteps_msteps_gen. now apply loop_iteration_msteps. Qed.
+
+Theorem stall_finds_cycle_gen stalled s0 root s fuel comps s' :
+  in_build_gen s0 root s -> loop_iteration_gen rules env F ord syncp stalled fuel s comps = (s', StStall) -> live s' root ->
+  FindCycle.no_dead_end (wait_graph s') root /\
+  exists l, FindCycle.findcycle_names (wait_graph s') root (fc_linear_fuel (wait_graph s')) = FindCycle.FcDone l /\ l <> [].
+Proof.
+  intros Hb Hrun Hlive. destruct (loop_iteration_no_work _ _ _ _ _ _ _ _ _ _ _ Hrun) as (Hs' & Q1 & Q2 & Q3 & Q4 & Q5 & _ & Hst & _); [discriminate|].
+  destruct (Hst eq_refl) as [Q6 _].
+  assert (HI : Inv rules ctx0 s') by (rewrite Hs'; apply Inv_finish_all; eapply in_build_gen_Inv; eauto).
+  assert (Hnd : FindCycle.no_dead_end (wait_graph s') root) by (apply (stall_no_dead_end rules); auto; repeat split; auto).
+  split; auto. apply FindCycleProofs.fc_stall_linear; auto. apply fc_linear_fuel_enough.
+Qed.
+Theorem edges_real_gen s0 root s a b : in_build_gen s0 root s -> In (a, b) (wait_graph s) ->
+  In a (requestable (rules b)) \/ In a (map d_key (res_deps (res_of s b))).
+Proof. intros Hb Hin. apply (in_build_gen_Inv rules env F ord syncp) in Hb. now destruct (edge_facts rules s a b Hb Hin). Qed.
+Theorem done_quiescent_gen s0 root s fuel comps s' :
+  in_build_gen s0 root s -> loop_iteration rules env F ord syncp fuel s comps = (s', StDone) -> quiescent s'.
+Proof.
+  intros Hb Hrun. destruct (loop_iteration_no_work _ _ _ _ _ _ _ _ _ _ _ Hrun) as (Hs' & Q1 & Q2 & Q3 & Q4 & Q5 & _ & _ & Hst); [discriminate|].
+  destruct (Hst eq_refl) as [Q6 Hns]. unfold stall_test in Hns. apply Bool.orb_false_iff in Hns. destruct Hns as [Hnt Hsc]. apply nonnil_false in Hnt.
+  assert (HI : Inv rules ctx0 s') by (rewrite Hs'; apply Inv_finish_all; eapply in_build_gen_Inv; eauto).
+  destruct HI as (Hn & HT & HI & HS).
+  assert (Hnoscan : forall k, kind_of s' k <> KScanning).
+  { intros k Hk. destruct (scanning_loaded s' k Hk) as (ri & Hri & Hr). apply aget_in in Hri.
+    assert (Hex : existsb (fun e => kind_eqb (ri_kind (snd e)) KScanning) (is_rules s') = true).
+    { apply existsb_exists. exists (k, ri). split; auto. cbn [snd]. unfold kind_of in Hk. rewrite Hr in Hk. rewrite Hk. reflexivity. }
+    unfold any_scanning in Hsc. congruence. }
+  repeat split; auto; try apply HT.
+  - intros Hw. assert (Hip : is_in_progress s' k = true) by (apply in_progress_iff; now left). apply (t_tk ctx0 s' HT) in Hip. rewrite Hnt in Hip. now apply Hip.
+  - intros Hw. assert (Hip : is_in_progress s' k = true) by (apply in_progress_iff; now right). apply (t_tk ctx0 s' HT) in Hip. rewrite Hnt in Hip. now apply Hip.
+  - now apply (i_hyg rules ctx0 s' HI).
+  - now apply (s_hyg ctx0 s' HS).
 Qed.
 End Thms.
